@@ -274,7 +274,8 @@ Fixpoint avail_sweep (idx : list nat) (g : list cnode) (visited : list nat) (cha
   | [] => (g, visited, changed)
   | i :: idx' =>
       let '(g', ch) := avail_node g visited i in
-      avail_sweep idx' g' (ins i visited) (changed || ch)%bool
+      (* fix: a node seen for the first time counts as a change - the nodes before it have not yet taken it into account *)
+      avail_sweep idx' g' (ins i visited) (changed || ch || negb (memn i visited))%bool
   end.
 
 Fixpoint avail_loop (fuel : nat) (g : list cnode) (visited : list nat) : res (list cnode) :=
